@@ -28,7 +28,7 @@ def snip_case(draw):
     spec = draw(G.signal_spec(nmin=1, nmax=128, dtypes=FLOATS + ["i8"], nchan_max=3, max_trailing=1, data_kinds=("noise", "index", "tone")))
     N = spec["n"]
     n = draw(st.one_of(st.integers(0, N), st.sampled_from([0, N, 1, max(0, N - 1)])))
-    forms = ["int", "float", "dur", "dt", "qsamp", "npint", "npfloat", "arr0"] + (["time"] if spec["t0"] else [])
+    forms = ["int", "float", "dur", "dt", "qsamp", "npint", "npfloat", "arr0", "timedelta", "dur_sub"] + (["time"] if spec["t0"] else [])
     form = draw(st.sampled_from(forms))
     i = draw(st.one_of(st.integers(0, N - n), st.just(N - n), st.just(0)))
     frac = 0
@@ -66,10 +66,20 @@ def to_arg(case, z):
     if form == "qsamp":
         q = float(t) * u.dimensionless_unscaled
         return q, t, case["frac"] == 0  # dimensionless Quantity: samples? -> handled below (see run)
-    if form in ("dur", "dt"):
-        q = (float(t) / z.sample_rate).to(O.unit(case["dur_unit"])) if form == "dur" else float(t) * z.dt
+    if form in ("dur", "dt", "timedelta", "dur_sub"):
+        if form == "dur_sub" and case["frac"] == 0:
+            # "the last len - t samples": the duration is what is left of the signal's length (a whole number of samples, up to the rounding
+            # of a subtraction of two durations of the size of the signal)
+            q = z.time_length - (len(z) - int(t)) * z.dt
+        else:
+            q = (float(t) / z.sample_rate).to(O.unit(case["dur_unit"])) if form == "dur" else float(t) * z.dt
         teff = (q * z.sample_rate).to_value(u.one)
-        tol = 8 * EPS * abs(teff)
+        tol = 8 * EPS * max(abs(teff), len(z))
+        if form == "timedelta":
+            from astropy.time import TimeDelta
+
+            q = TimeDelta(q.to(u.s))  # what `t1 - z.start_time` gives: a duration, too
+            teff = (q.to(u.s) * z.sample_rate).to_value(u.one)
     else:
         tobj = z.start_time + float(t) / z.sample_rate
         teff = ((tobj - z.start_time).to(u.s) * z.sample_rate).to_value(u.one)
